@@ -46,6 +46,15 @@ CLAIMED = {
          "photon coefficient with missing wavelength while null rates are requested is recorded, not asserted.",
     technique="TLA+ decision table enumerated by TLC, one implementation test per row",
     design="4.7"),
+ "C01": dict(
+    text="Scene.tla models one plasma + beam (attenuator, beam models) + laser scene as 38 configuration parameters, 7 pieces of cached derived state with the "
+         "projection each is computed from, and the observer wiring (which notifiers a setter fires, which callbacks clear / rebuild what, cascades). TLC checks NoStale on the wiring "
+         "(every dependent cache is reached) over all histories of mutators and observations to depth 2 (3 sampled in thorough) from a fresh and a fully observed scene; "
+         "every explored edge is replayed on a real raysect scene with mock atomic data and each observation (6 sight lines, beam density/direction, plasma scalars, laser segments) "
+         "is compared with a scene built from scratch in the final configuration (same code both sides, rtol 1e-11). A sensitivity audit guarantees every parameter is observable.",
+    note="Two concrete values per parameter; one object of each kind; constant mock rates; in-place edits of shared objects and user-defined models are out of scope; histories longer than the depth bound only sampled.",
+    technique="TLA+ wiring/caching state machine model-checked by TLC; explored histories replayed on the real scene vs fresh build",
+    design="4.1"),
 }
 
 NOT_YET = {}
